@@ -230,10 +230,12 @@ func realStoreConformance(rep *evid.Reporter, keyPrefix string) (histories, step
 	}
 	ddl := string(raw)
 	ops := rsOps()
+	// depth 3 over both alphabets; the thorough tier adds depth 4 over a core alphabet (the product of everything at depth 4
+	// would be 1.5e6 histories for each of the 16 checks that run this part)
 	maxLen := 3
-	if rep.Thorough() {
-		maxLen = 4
-	}
+	core := map[string]bool{"fund": true, "spend": true, "fund[k]": true, "spend[k]": true, "fund-ref-r": true, "spend-ref-r": true, "preview-spend": true,
+		"script-balance-meta": true, "meta-cfg": true, "meta-tx-0[k]": true, "delete-meta-cfg": true, "delete-meta-tx-0": true, "revert-0": true,
+		"revert-0-force[k2]": true, "revert-1": true, "L2:fund[k]": true, "spend-backdated": true}
 	// two alphabets sharing the basic operations (the product of everything with everything grows with the cube):
 	// A - kinds of write, keys, references, dates, the neighbour ledger; B - what scripts read, metadata of every kind
 	inB := map[string]bool{"fund": true, "spend": true, "fund-eur": true, "spend-eur": true, "script-balance-meta": true, "meta-cfg": true, "meta-cfg-null": true,
@@ -251,9 +253,21 @@ func realStoreConformance(rep *evid.Reporter, keyPrefix string) (histories, step
 			groupA = append(groupA, i)
 		}
 	}
+	var groupCore []int
+	for i, o := range ops {
+		if core[o.Name] {
+			groupCore = append(groupCore, i)
+		}
+	}
+	groups := [][]int{groupA, groupB}
+	depths := []int{maxLen, maxLen}
+	if rep.Thorough() {
+		groups, depths = append(groups, groupCore), append(depths, 4)
+	}
 	var hists [][]int
 	seenHist := map[string]bool{}
-	for _, group := range [][]int{groupA, groupB} {
+	for gi, group := range groups {
+		maxLen := depths[gi]
 		var rec func(cur []int)
 		rec = func(cur []int) {
 			if len(cur) > 0 {
